@@ -52,6 +52,8 @@ Alphabet ==
     \cup {[t |-> "E", portal |-> p, max |-> 0] : p \in PNames}
     \cup {[t |-> "H"], [t |-> "S"]}
     \cup {[t |-> "Q", q |-> QOk(StOk1)], [t |-> "Q", q |-> QErr]}
+    \* a closed name is unknown: referring to it afterwards is an error like any other
+    \cup {[t |-> "C", kind |-> "P", name |-> ""]}
     \cup (IF Rich THEN
             {[t |-> "C", kind |-> "S", name |-> n] : n \in Names}
             \cup {[t |-> "C", kind |-> "P", name |-> p] : p \in PNames}
@@ -75,10 +77,14 @@ MCInit == InitWith(Cfg0) /\ hist = <<>> /\ cur = [t |-> "-", skipped |-> FALSE] 
 MCSend ==
     /\ Quiet /\ Len(hist) < MaxSends
     /\ \E m \in IF phase = "startup" THEN {StartupMsg} ELSE Alphabet :
-          /\ Refers(m) \cap gone = {}
           /\ ClientSend(m)
           /\ hist' = Append(hist, [k |-> "send", m |-> m])
-          /\ gone' = IF m.t = "C" THEN gone \cup {<<m.kind, m.name>>} ELSE gone
+          \* (whether the closed name was defined is part of the view: closing a defined name and closing a
+          \* name that never existed lead to the same abstract state but not necessarily to the same
+          \* implementation state)
+          /\ gone' = IF m.t = "C"
+                     THEN gone \cup {<<m.kind, m.name, (m.kind = "P" /\ m.name \in DOMAIN portals) \/ (m.kind = "S" /\ m.name \in DOMAIN stmts)>>}
+                     ELSE gone
     /\ UNCHANGED cur
 
 MCServer ==
